@@ -30,6 +30,8 @@ def _is_sym(x):
 
 class Quantity:
     calls = []
+    relerr = False  # RELERR mode: every conversion multiply is fl(a*b) = a*b*(1+d), |d| <= 2^-53
+    ndelta = [0]
 
     def __init__(self, value, unit=None, **k):
         if isinstance(value, Quantity):
@@ -62,7 +64,15 @@ class Quantity:
             raise
         if self.unit == unit:
             return Quantity(self.value, unit)
-        return Quantity(self.value * SV.of(float(f)), unit)
+        v = self.value * SV.of(float(f))
+        if Quantity.relerr and v.t is not None:
+            import z3
+
+            Quantity.ndelta[0] += 1
+            d = z3.Real(f"fl_delta{Quantity.ndelta[0]}")
+            core.ctx().assume(d >= -core.rv(Fr(1, 2**53)), d <= core.rv(Fr(1, 2**53)))
+            v = v * (SV(c=Fr(1)) + SV(t=d))
+        return Quantity(v, unit)
 
     def __str__(self):
         if _is_sym(self.value):
